@@ -383,7 +383,8 @@ Definition handler (s : st) (c : cmd) : st * plan :=
   | CLongData id => (s, [])      (* no reply, also for an unknown statement id *)
   | CExecute id cursor =>
       match find_stmt id (stmts s) with
-      | Some _ => (s, [MApp SQuery; MCont (QExec id cursor)])
+      (* a new execution supersedes the statement's open cursor, whatever its outcome: stmt.cursor = None before the query runs *)
+      | Some _ => (set_stmts s (put_stmt id (mk_stmt None 0) (stmts s)) (next_stmt s), [MApp SQuery; MCont (QExec id cursor)])
       | None => (s, [MRaise (XMysql E_UNKNOWN_PROCEDURE) None])
       end
   | CFetch id n szf =>
